@@ -236,6 +236,32 @@ Definition check_alditol (t opens : list row) : list issue :=
       end
     else []) t.
 
+(* pyranose and furanose entries of one code reduce to one and the same alditol (also where the library has no
+   "-OL" row to compare with): open both rings at the anomeric carbon, reduce, compare *)
+Definition reduced (r : row) : option mol :=
+  match row_mol r with
+  | Some m =>
+      let ms := strip_h m in
+      match filter (fun '(_, _, n) => Nat.eqb n (r_lactole r)) (anomeric_sites ms) with
+      | (c, o, _) :: _ => Some (reduce_open ms c o)
+      | [] => None
+      end
+  | None => None
+  end.
+
+Definition check_forms (p f : list row) : list issue :=
+  flat_map (fun r =>
+    if Nat.eqb (key_cfg (r_key r)) 0 then
+      match find_row (r_key r) f with
+      | Some rf =>
+          match reduced r, reduced rf with
+          | Some a, Some b => if same_molecule a b then [] else [IAlditol (r_key r) "pyranose and furanose entries reduce to different alditols"]
+          | _, _ => [IAlditol (r_key r) "no hemiacetal ring in one of the ring forms"]
+          end
+      | None => []
+      end
+    else []) p.
+
 (* inverting every tag gives the mirror image (model of to_enantiomer), for every row *)
 Definition check_mirror (t : list row) : list issue :=
   flat_map (fun r => match row_mol r with
@@ -258,7 +284,7 @@ Definition library_issues : list issue :=
   check_anomers pyranoses ++ check_anomers furanoses ++
   check_ring pyranoses ++ check_ring furanoses ++ check_ring opens ++
   check_formula pyranoses ++ check_formula furanoses ++
-  check_alditol pyranoses opens ++ check_alditol furanoses opens ++
+  check_alditol pyranoses opens ++ check_alditol furanoses opens ++ check_forms pyranoses furanoses ++
   check_mirror pyranoses ++ check_mirror furanoses ++ check_mirror opens ++
   check_distinct pyranoses furanoses.
 
@@ -286,4 +312,4 @@ Definition library_issues_fast : list issue :=
   check_anomers pyranoses ++ check_anomers furanoses ++
   check_ring pyranoses ++ check_ring furanoses ++ check_ring opens ++
   check_formula pyranoses ++ check_formula furanoses ++
-  check_alditol pyranoses opens ++ check_alditol furanoses opens.
+  check_alditol pyranoses opens ++ check_alditol furanoses opens ++ check_forms pyranoses furanoses.
